@@ -340,13 +340,14 @@ def handle (toks : List String) : Option String :=
       let w ← parseNat w; let b ← parseNat b; let box ← parseNat box; let m ← parseBMat m
       let doc := svgDoc f mdr edr m w b box
       pure s!"ok {doc.pixelSize} {if doc.viewBox then 1 else 0} {if doc.background then 1 else 0} {if doc.shapes.isEmpty then "-" else ";".intercalate (doc.shapes.map fmtShape)}"
-  | ["cli", fac, drw, opt, lvl, asc, outp, arg, stdin, tty, imp] => do
+  | ["cli", fac, drw, opt, lvl, asc, outp, arg, stdin, tty, imp, impAliases] => do
       let opt ← if opt = "-" then some none else (parseNat opt).map some
       let asc ← parseBool asc; let tty ← parseBool tty; let imp ← parseBool imp
       let arg ← if arg = "none" then some none else (parseList arg).map some
       let stdin ← parseList stdin
       let i : CliInput := { factory := optStr fac, drawer := optStr drw, optimize := opt, level := lvl, ascii := asc,
-                            output := optStr outp, arg := arg, stdin := stdin, stdoutIsTty := tty, importable := imp }
+                            output := optStr outp, arg := arg, stdin := stdin, stdoutIsTty := tty, importable := imp,
+                            importedAliases := if impAliases = "-" then [] else impAliases.splitOn "," }
       pure (match cli i with
         | .fail => "ok fail"
         | .ascii t l segs => s!"ok ascii {if t then 1 else 0} {l} {fmtSegList segs}"
